@@ -180,6 +180,36 @@ fn check_single(c: &Case, e: &Error, templates: &[(String, String)], variant: &s
     loc
 }
 
+/// lines to surround a failing construct with (plain text: no delimiter characters)
+fn neighbour_zoo(tier: Tier) -> Vec<String> {
+    let fill: [&str; 4] = ["x", "é", "☃", "😀"];
+    let mut lens: Vec<usize> = (0..=300).collect();
+    for p in 9..=16u32 {
+        let b = 1usize << p;
+        lens.extend([b - 1, b, b + 1]);
+    }
+    let mut v = vec![];
+    let make = |len: usize, k: usize, c: usize| -> String {
+        // k ASCII characters, then c-byte characters up to at least `len` bytes
+        let mut s = "abc"[..k.min(3)].to_string();
+        while s.len() < len {
+            s.push_str(fill[c - 1]);
+        }
+        s
+    };
+    for &len in &lens {
+        // three compositions per length; all twelve at the long lengths and in the thorough tier
+        let combos: Vec<(usize, usize)> = if len > 300 || tier == Tier::Thorough { (0..4).flat_map(|k| (1..=4).map(move |c| (k, c))).collect() } else { vec![(1, 2), (0, 3), (2, 4)] };
+        for (k, c) in combos {
+            if len > 40_000 && tier == Tier::Quick && !(k == 1 && c == 2) {
+                continue;
+            }
+            v.push(make(len, k, c));
+        }
+    }
+    v
+}
+
 fn shifted(c: &Case, filler: &str, n: usize, hprefix: &str) -> Case {
     let mut c2 = c.clone();
     for (name, src) in c2.templates.iter_mut() {
@@ -332,6 +362,58 @@ fn check_case(c: &Case, tier: Tier, acc: &Acc, l: &mut Local) {
                     detail: format!("base report {:?}; after compiling {:?} on the same thread {:?}", base_loc, prior, other),
                     replay: json!({"templates": c.templates, "main": c.main, "prior": prior}),
                 }),
+            }
+        }
+    }
+    // neighbour lines: the excerpt a report shows is made of the lines around the failing one.  Lines of
+    // every length 0..=300 and of lengths around every power of two up to 65 537, made of 1- to 4-byte
+    // characters behind 0..3 ASCII characters (so that for every byte offset some line has a character
+    // straddling it), are placed directly above the failing construct (three per case) and, for
+    // run-time errors, also below it; the report must still format in all five forms, keep its kind,
+    // and move by the number of lines inserted above
+    if c.family == "runtime" || c.family == "syntax_classic" || fnv(c.name.as_bytes()) % 64 == 0 {
+        let zoo = neighbour_zoo(tier);
+        let per_case = 3usize;
+        let stride = if c.family == "runtime" || c.family == "syntax_classic" { 1 } else { 4 };
+        let mut k = 0usize;
+        while k < zoo.len() {
+            let lines: Vec<&String> = zoo[k..(k + per_case).min(zoo.len())].iter().collect();
+            k += per_case * stride;
+            let above: String = lines.iter().map(|l| format!("{}\n", l)).collect();
+            for below in [false, true] {
+                if below && c.family != "runtime" {
+                    continue;
+                }
+                let mut c2 = shifted(c, "", 0, &above);
+                if below {
+                    let tail: String = lines.iter().map(|l| format!("\n{}", l)).collect();
+                    for (name, src) in c2.templates.iter_mut() {
+                        if *name == c.target {
+                            src.push_str(&tail);
+                        }
+                    }
+                }
+                l.evals += 1;
+                let variant = format!("neighbours{}:{}", if below { "_both" } else { "_above" }, k);
+                match run_case(&c2) {
+                    Err(p) => acc.fail(mk("panic", &variant, format!("{} at {}", p, last_panic_loc()), &c2.templates)),
+                    Ok(None) => acc.fail(mk("failure_disappears", &variant, "template fails without neighbour lines but not with them".into(), &c2.templates)),
+                    Ok(Some((e, tpls))) => {
+                        let loc = check_single(&c2, &e, &tpls, &variant, true, acc);
+                        if loc.kind != base_loc.kind || loc.name != base_loc.name {
+                            acc.fail(mk("error_changes_with_offset", &variant, format!("base {:?}/{:?} with neighbours {:?}/{:?}", base_loc.kind, base_loc.name, loc.kind, loc.name), &c2.templates));
+                            continue;
+                        }
+                        for (b0, b1) in base_loc.entries.iter().zip(loc.entries.iter()) {
+                            let moves = b0.name.as_deref() == Some(c.target.as_str());
+                            if let (Some(a), Some(b), true) = (b0.line, b1.line, moves) {
+                                if b != a + lines.len() {
+                                    acc.fail(mk("line_shift", &variant, format!("base line {} + {} neighbour lines above but the error reports line {}", a, lines.len(), b), &c2.templates));
+                                }
+                            }
+                        }
+                    }
+                }
             }
         }
     }
